@@ -1,6 +1,7 @@
 import Vata.Cow
 import Vata.Proofs.CowHeap
 import Vata.Proofs.CowHeap3
+import Vata.Properties.C11_Extended
 /-!
 # C11 – Explicit automata are values: copies isolated, results depend only on operands
 
@@ -38,6 +39,12 @@ storage)
   decisions of the code sound (`C11_invariant`).
 * `Vata/Cow.lean` (namespace `Vata.C`) is the first, relational two-level probe (no reference counts: uniqueness is
   decided by looking at all live handles); its lemmas are the bare *make-unique principle* (`C11_make_unique_principle`).
+* **The rest of the quantifier** – `SetStateFinal` / `SetStatesFinal` / `EraseFinalStates` and the final-state half of
+  `Clear`, move construction and move assignment, the selective copy constructor, and the library operations whose results
+  share storage with their operands (`RemoveUnreachableStates`, `RemoveUselessStates`, `UnionDisjointStates`,
+  `ReindexStates` / `Union`) – is the extended model `Vata/CowHeapX.lean` (`CowHeapX.HOpX`, values = whole `Store.Store`s,
+  the same three-level heap plus a final set per handle), with its theorems in `Vata/Properties/C11_Extended.lean`;
+  `C11_statement` at the end of this file is the property for that model in one theorem.
 -/
 namespace Vata.Props
 open Vata
@@ -179,31 +186,69 @@ example :
     · exact absurd rfl hne
     · decide
 
+/-! ### the property in one statement, for the extended model -/
+
+/-- **C11 for every history of the extended operations** (construct, selective copy, copy-assign, move, move-assign,
+`AddTransition`, `SetStateFinal(s)`, `EraseFinalStates`, `Clear`, destroy, and the sharing results of
+`RemoveUnreachableStates` / `RemoveUselessStates` / `UnionDisjointStates`; `ReindexStates` / `Union` are sequences of them):
+(1) what is read through the handles – rules AND final states – is what the independent-values specification computes;
+(2) "never visible through another object": one more operation leaves the value of every object that is not one of its
+targets exactly as it was; (3) "automata returned by operations stay unchanged when their operands are modified or destroyed
+afterwards": an object keeps its value through every continuation in which it is not itself a target; (4) the reference
+counts stay exact, so every "unique ⇒ modify in place" decision of the code is sound -/
+theorem C11_statement (ops later : List CowHeapX.HOpX) (op : CowHeapX.HOpX) (x : Nat) :
+    CowHeapX.absX (ops.foldl CowHeapX.stepX CowHeapX.initX) = ops.foldl CowHeapX.specStepX CowHeapX.specInitX ∧
+    (x ∉ CowHeapX.targets op →
+      CowHeapX.absX (CowHeapX.stepX (ops.foldl CowHeapX.stepX CowHeapX.initX) op) x =
+        CowHeapX.absX (ops.foldl CowHeapX.stepX CowHeapX.initX) x) ∧
+    ((∀ o, o ∈ later → x ∉ CowHeapX.targets o) →
+      CowHeapX.absX ((ops ++ later).foldl CowHeapX.stepX CowHeapX.initX) x =
+        CowHeapX.absX (ops.foldl CowHeapX.stepX CowHeapX.initX) x) ∧
+    CowHeapX.InvX (ops.foldl CowHeapX.stepX CowHeapX.initX) :=
+  ⟨C11_ext_history_isolation ops, C11_ext_other_handles_unchanged ops op x, C11_ext_result_survives ops later x,
+    (C11_ext_invariant ops).1⟩
+
+-- the union (object 5) of a history with `RemoveUnreachableStates`, writes to operand and result, `UnionDisjointStates`, `Clear`
+example : CowHeapX.absX (CowHeapX.CowExX.ops2.foldl CowHeapX.stepX CowHeapX.initX) 5 =
+    some ⟨[(5, [(7, [[], [5, 5]])]), (6, [(8, [[5]])]), (10, [(7, [[]])])], [6, 5, 10]⟩ := by decide
+
 /-!
+## closed since the last refresh of this file
+
+All in `Vata/Properties/C11_Extended.lean` (model `Vata/CowHeapX.lean`), restated together in `C11_statement`:
+
+* **"Final states. … are not operations of `HOp`"** – closed: `setFinal` / `setFinals` / `eraseFinal` / `clear` are operations
+  of `HOpX`, the value of an object is a whole `Store.Store` (`C11_ext_history_isolation`, `C11_ext_other_handles_unchanged`).
+* **"Move construction / move assignment: not in `HOp`"** – closed: `C11_ext_move`; the selective copy constructor:
+  `C11_ext_copy`.
+* **"Library operations that return sharing results … not operations of the heap model"** – closed for
+  `RemoveUnreachableStates` (both exits: `*this`, and a NEW map node holding the operand's cluster pointers),
+  `RemoveUselessStates` with `result.transitions_ = transitions_`, `UnionDisjointStates`, `ReindexStates(dst, …)` / `Union`:
+  `C11_ext_sharing_results`, `C11_ext_result_survives`, `C11_ext_union_disjoint`, `C11_ext_reindex_into`.
+* The extended model extends the model of this file conservatively (`C11_ext_conservative`).
+* **The process-wide tuple cache** (`globalTupleCache_` is a `Util::Cache`): the class has a model of its own with history
+  theorems – two handles are pointer-equal iff the interned values are equal, `use_count` = number of handles, the cache is
+  empty when the last handle is gone (`Util_Cache_interning`, `Util_Cache_store_bijective`, `Util_Cache_no_leak` in
+  `Vata/Properties/Util_Cache.lean`) – which is what licenses "child tuples are immutable values compared by value" here.
+
 ## not yet proved
 
-The theorems above cover, for **explicit tree automata**, the operations default-construct, copy-construct, copy-assign,
-`AddTransition`, the transition part of `Clear`, and destroy, over any number of objects sharing storage at all three
-levels.  Not covered by a theorem about a model:
-
-* **Final states.**  `SetStateFinal`, `SetStatesFinal`, `EraseFinalStates` and the final-state half of `Clear` are not
-  operations of `HOp`; the value `Val` is the `clusters` component only, the final-state set of an object is not part of
-  the heap models.
-* **Move** construction / move assignment: not in `HOp`.
-* **Library operations that return sharing results** (`RemoveUnreachableStates` returning `*this` / copying cluster
-  pointers, `RemoveUselessStates` with `result.transitions_ = transitions_`, `Union`, `ReindexStates`, …): not operations
-  of the heap model.  "Automata returned by operations stay unchanged when their operands are modified or destroyed" is
-  proved only in so far as such a result is created like a `copy`; that the real operations create their results that
-  way is not modelled (direct copying of cluster pointers into a *new* map node is not an `HOp`).
+* that the reachability / usefulness COMPUTATION inside the sharing library operations yields the right `keep` / `keepF`
+  (the subject of C03): in the heap model these are parameters.  `RemoveUselessStates` with `remaining ≠ 0` builds its result
+  by `internalAddTransition` (a sequence of `add`) and is not spelled out as a derived operation.
+* state after a move: the moved-from C++ object still exists (null `transitions_`); the model treats it as dead.  Using it
+  (other than destroying it or assigning to it) is not a C++ program we model.
 * **"The outcome of an operation depends only on its operands and parameters."**  In Lean every model of an operation is
   a pure function of its arguments, so this holds by construction of the models and says nothing about hidden state of
-  the C++.  The **process-wide caches** (`globalTupleCache_`, `globalAlphabet_`) are not modelled: child tuples are
-  immutable values in `Val`, symbols are numbers.
-* **Explicit finite automata** (`explicit_finite_aut_core`: `uniqueClusterMap`, `uniqueCluster`) have no model of their
-  own; `CowHeap` has the right number of levels but its operations were written after the tree-automaton code.
+  the C++.  Of the two process-wide caches, `globalTupleCache_` now has a class model (above) that is not connected to the
+  heap model by a theorem (tuples stay values in `Val`); `globalAlphabet_` is not modelled (symbols are numbers; the symbol
+  dictionary appears only as a parameter of the load / dump model of C13).
+* **Explicit finite automata** (`explicit_finite_aut_core`: `uniqueClusterMap`, `uniqueCluster`) have no heap model of
+  their own; `CowHeap` has the right number of levels but its operations were written after the tree-automaton code.
+  (Their start-symbol map is modelled as a value in `Vata/NfaStart.lean`, C10.)
 * The heap models are linked to the real objects only by the correspondence check of the driver (values read through
-  every live handle after each step, and `invB` on the reconstructed `use_count`s); `step` being a faithful transcription
-  of the C++ is not a theorem.
+  every live handle after each step, and `invB` on the reconstructed `use_count`s); `step` / `stepX` being faithful
+  transcriptions of the C++ is not a theorem.
 * For the probe `Vata/Cow.lean`: that `C.uniqueMap` establishes `C.MapUnique` and that `C.add` preserves `C.Inv`.
 -/
 end Vata.Props
